@@ -48,6 +48,8 @@ def _b(data: bytes) -> dict:
 def bad_content(kind: str, good: str):
     if kind == "badutf8":
         return _b(good.encode() + b"\xff\xfe = 1\n")
+    if kind == "badutf8comment":
+        return _b(good.encode() + b"# caf\xe9 \xa9 legacy comment\n")
     if kind == "nul":
         return _b(good.encode() + b"y = '\x00'\n\x00\n")
     if kind == "syntax":
@@ -80,14 +82,14 @@ def build(pipe: str, faults: list[dict], sid: str) -> dict:
     for x in faults:
         f = FILES[x["fj"] - 1]
         c = spec["queue"][x["ci"] - 1]
-        if x["kind"] in ("badutf8", "nul", "syntax", "empty"):
+        if x["kind"] in ("badutf8", "badutf8comment", "nul", "syntax", "empty"):
             files[f] = bad_content(x["kind"], spec["good"])
         elif x["kind"] == "vanish":
-            inject["vanish"] = {"c": c, "f": f}
+            inject.setdefault("vanish", []).append({"c": c, "f": f})
         elif x["kind"] == "raise":
-            inject["raise_in_transform"] = {"c": c, "f": f}
+            inject.setdefault("raise_in_transform", []).append({"c": c, "f": f})
         elif x["kind"].startswith("raiseAtNode"):
-            inject["raise_at_node"] = {"c": c, "f": f, "n": {"raiseAtNodeEarly": 2, "raiseAtNodeMid": 25, "raiseAtNodeLate": "after-first-change"}[x["kind"]]}
+            inject.setdefault("raise_at_node", []).append({"c": c, "f": f, "n": {"raiseAtNodeEarly": 2, "raiseAtNodeMid": 25, "raiseAtNodeLate": "after-first-change"}[x["kind"]]})
     argv = ["{dir}", "--output", "{out}", "--codemod-include", ",".join(spec["queue"])]
     res = {}
     if pipe in ("sast", "sast2"):
@@ -157,9 +159,26 @@ def run(chk: Check) -> None:
         for fj in m["intact"]:
             f = FILES[fj - 1]
             kinds = {x["kind"] for x in m["faults"] if x["fj"] == fj}
-            if kinds & {"badutf8", "nul", "syntax", "empty"}:
+            if kinds & {"badutf8", "badutf8comment", "nul", "syntax", "empty"}:
                 intact_ok = intact_ok and f not in st["changed_files"]
         tr["events"].append({"ev": "Compare", "what": "unprocessable-file-was-modified", "equal": bool(intact_ok)})
+        # a transformer fault hits ONE (codemod, file) step: every other codemod still treats that file as in the twin run
+        q = PIPES[m["pipe"]]["queue"]
+
+        def touches(rep, cid, f):
+            for r in (rep or {}).get("results", []):
+                if r["codemod"] == cid:
+                    return (any(c["path"] == f for c in r["changeset"]), any(p.rsplit("/target/", 1)[-1] == f for p in r.get("failedFiles", [])))
+            return (False, False)
+
+        others_ok = True
+        for x in m["faults"]:
+            if x["kind"].startswith("raise"):
+                f = FILES[x["fj"] - 1]
+                for ci, cid in enumerate(q, 1):
+                    if ci != x["ci"] and touches(st["report"], cid, f) != touches(twin["report"], cid, f):
+                        others_ok = False
+        tr["events"].append({"ev": "Compare", "what": "another-codemod-treats-the-faulted-file-differently", "equal": bool(others_ok)})
         traces.append(tr)
     verdicts, stats = tracecheck.validate(traces)
     for s in stats:
